@@ -22,9 +22,16 @@ import (
 	"strings"
 )
 
+type vfC04Field struct {
+	Name string `json:"name"`
+	Kind string `json:"kind"` // int | text
+}
+
 type vfC04Plan struct {
-	Kind  string   `json:"kind"`  // int | text | bool | list_int | raw | tuple
-	Elems []string `json:"elems"` // element kinds of a tuple column
+	Kind   string       `json:"kind"`   // int | text | bool | list_int | blob | map_int_int | raw | tuple | udt | list_udt | map_int_udt
+	Elems  []string     `json:"elems"`  // element kinds of a tuple column
+	Shape  string       `json:"shape"`  // Go destination shape for the UDT values of this column
+	Fields []vfC04Field `json:"fields"` // the UDT's fields (printable name, kind)
 }
 
 type vfC04Case struct {
@@ -322,6 +329,202 @@ func vfC04Render(v interface{}) string {
 	return vfC04Ascii(fmt.Sprintf("?%s:%v", rv.Type(), v))
 }
 
+// ---------------------------------------------------------------- UDT destinations of every documented shape
+
+// structs with cql tags for a UDT (f1 int, f2 text, f3 int): all fields, and partial ones
+type vfC04TFull struct {
+	A int    `cql:"f1"`
+	B string `cql:"f2"`
+	C int    `cql:"f3"`
+}
+type vfC04TNoLead struct {
+	B string `cql:"f2"`
+	C int    `cql:"f3"`
+}
+type vfC04TNoMid struct {
+	A int `cql:"f1"`
+	C int `cql:"f3"`
+}
+type vfC04TNoTrail struct {
+	A int    `cql:"f1"`
+	B string `cql:"f2"`
+}
+type vfC04TOnlyLast struct {
+	C int `cql:"f3"`
+}
+type vfC04TOnlyMid struct {
+	B string `cql:"f2"`
+}
+
+// structs matched by Go field name for a UDT ("Fa" int, "Fb" text, "Fc" int)
+type vfC04NFull struct {
+	Fa int
+	Fb string
+	Fc int
+}
+type vfC04NNoLead struct {
+	Fb string
+	Fc int
+}
+type vfC04NNoMid struct {
+	Fa int
+	Fc int
+}
+type vfC04NNoTrail struct {
+	Fa int
+	Fb string
+}
+type vfC04NOnlyLast struct {
+	Fc int
+}
+
+// vfC04UdtU is a UDTUnmarshaler that keeps every field exactly as it was handed over.
+type vfC04UdtU struct {
+	got map[string]vfC04Raw
+}
+
+func (u *vfC04UdtU) UnmarshalUDT(name string, info TypeInfo, data []byte) error {
+	if u.got == nil {
+		u.got = map[string]vfC04Raw{}
+	}
+	u.got[name] = vfC04Raw{null: data == nil, b: append([]byte{}, data...), set: true}
+	return nil
+}
+
+var vfC04Shapes = map[string]reflect.Type{
+	"map":       reflect.TypeOf(map[string]interface{}{}),
+	"udtu":      reflect.TypeOf(vfC04UdtU{}),
+	"tfull":     reflect.TypeOf(vfC04TFull{}),
+	"tnolead":   reflect.TypeOf(vfC04TNoLead{}),
+	"tnomid":    reflect.TypeOf(vfC04TNoMid{}),
+	"tnotrail":  reflect.TypeOf(vfC04TNoTrail{}),
+	"tonlylast": reflect.TypeOf(vfC04TOnlyLast{}),
+	"tonlymid":  reflect.TypeOf(vfC04TOnlyMid{}),
+	"nfull":     reflect.TypeOf(vfC04NFull{}),
+	"nnolead":   reflect.TypeOf(vfC04NNoLead{}),
+	"nnomid":    reflect.TypeOf(vfC04NNoMid{}),
+	"nnotrail":  reflect.TypeOf(vfC04NNoTrail{}),
+	"nonlylast": reflect.TypeOf(vfC04NOnlyLast{}),
+}
+
+func vfC04UdtDest(kind, shape string) interface{} {
+	t, ok := vfC04Shapes[shape]
+	if !ok {
+		panic("harness: unknown UDT shape " + shape)
+	}
+	switch kind {
+	case "list_udt":
+		t = reflect.SliceOf(t)
+	case "map_int_udt":
+		t = reflect.MapOf(reflect.TypeOf(int(0)), t)
+	}
+	return reflect.New(t).Interface()
+}
+
+func vfC04ZeroOf(kind string) string {
+	if kind == "int" {
+		return "0"
+	}
+	return "t:"
+}
+
+// vfC04RenderAny prints UDT values (struct of any shape, map, UDTUnmarshaler record) and
+// lists / int-keyed maps of them in the notation of the specification.  A struct shows the
+// fields it has; a map or a UDTUnmarshaler shows every field of the type, a missing key counting
+// as the zero value / null.  ptr: nil collections are "null" (pointer destination), else empty.
+func vfC04RenderAny(rv reflect.Value, fields []vfC04Field, ptr bool) string {
+	for rv.Kind() == reflect.Ptr || rv.Kind() == reflect.Interface {
+		if rv.IsNil() {
+			return "null"
+		}
+		rv = rv.Elem()
+	}
+	switch rv.Kind() {
+	case reflect.Int, reflect.Int32, reflect.Int64:
+		return strconv.FormatInt(rv.Int(), 10)
+	case reflect.String:
+		return "t:" + vfC04Join(vfC04S2I(rv.String()))
+	case reflect.Slice:
+		if rv.IsNil() {
+			if ptr {
+				return "null"
+			}
+			return "[]"
+		}
+		p := make([]string, rv.Len())
+		for i := range p {
+			p[i] = vfC04RenderAny(rv.Index(i), fields, ptr)
+		}
+		return "[" + strings.Join(p, ",") + "]"
+	case reflect.Map:
+		if rv.Type().Key().Kind() == reflect.String { // a UDT as map[string]interface{}
+			p := []string{}
+			for _, f := range fields {
+				v := rv.MapIndex(reflect.ValueOf(f.Name))
+				if !v.IsValid() {
+					p = append(p, f.Name+"="+vfC04ZeroOf(f.Kind))
+				} else {
+					p = append(p, f.Name+"="+vfC04RenderAny(v, fields, ptr))
+				}
+			}
+			if rv.Len() > len(fields) {
+				p = append(p, fmt.Sprintf("?%d-keys", rv.Len()))
+			}
+			return "{" + strings.Join(p, ",") + "}"
+		}
+		if rv.IsNil() {
+			if ptr {
+				return "null"
+			}
+			return "{}"
+		}
+		keys := rv.MapKeys()
+		sort.Slice(keys, func(i, j int) bool { return keys[i].Int() < keys[j].Int() })
+		p := make([]string, len(keys))
+		for i, k := range keys {
+			p[i] = strconv.FormatInt(k.Int(), 10) + ":" + vfC04RenderAny(rv.MapIndex(k), fields, ptr)
+		}
+		return "{" + strings.Join(p, ",") + "}"
+	case reflect.Struct:
+		if rv.Type() == reflect.TypeOf(vfC04UdtU{}) {
+			u := rv.Interface().(vfC04UdtU)
+			p := []string{}
+			for _, f := range fields {
+				if r, ok := u.got[f.Name]; ok && !r.null {
+					p = append(p, f.Name+"=b:"+vfC04Join(vfC04B2I(r.b)))
+				} else {
+					p = append(p, f.Name+"=null")
+				}
+			}
+			return "{" + strings.Join(p, ",") + "}"
+		}
+		p := []string{}
+		t := rv.Type()
+		for _, f := range fields {
+			for i := 0; i < t.NumField(); i++ {
+				if t.Field(i).Tag.Get("cql") == f.Name || t.Field(i).Name == f.Name {
+					p = append(p, f.Name+"="+vfC04RenderAny(rv.Field(i), fields, ptr))
+				}
+			}
+		}
+		return "{" + strings.Join(p, ",") + "}"
+	}
+	return vfC04Ascii(fmt.Sprintf("?%s", rv.Type()))
+}
+
+func vfC04IsUdtKind(kind string) bool {
+	return kind == "udt" || kind == "list_udt" || kind == "map_int_udt"
+}
+
+func vfC04PlanFields(plan []vfC04Plan) []vfC04Field {
+	for _, p := range plan {
+		if len(p.Fields) > 0 {
+			return p.Fields
+		}
+	}
+	return nil
+}
+
 func vfC04RenderMap(m map[int]int) string {
 	keys := make([]int, 0, len(m))
 	for k := range m {
@@ -359,12 +562,16 @@ func vfC04Dests(plan []vfC04Plan, typed bool) []interface{} {
 	for _, p := range plan {
 		if p.Kind == "tuple" {
 			for _, e := range p.Elems {
-				if typed {
+				if typed && vfC04IsUdtKind(e) {
+					ds = append(ds, vfC04UdtDest(e, p.Shape))
+				} else if typed {
 					ds = append(ds, vfC04Dest(e))
 				} else {
 					ds = append(ds, &vfC04Raw{})
 				}
 			}
+		} else if typed && vfC04IsUdtKind(p.Kind) {
+			ds = append(ds, vfC04UdtDest(p.Kind, p.Shape))
 		} else if typed {
 			ds = append(ds, vfC04Dest(p.Kind))
 		} else {
@@ -374,11 +581,23 @@ func vfC04Dests(plan []vfC04Plan, typed bool) []interface{} {
 	return ds
 }
 
-func vfC04RowOut(ds []interface{}, typed bool) interface{} {
+func vfC04RenderDest(v interface{}, fields []vfC04Field) string {
+	s := vfC04Render(v)
+	if strings.HasPrefix(s, "?") && fields != nil {
+		rv := reflect.ValueOf(v)
+		return vfC04RenderAny(rv, fields, rv.Kind() == reflect.Ptr)
+	}
+	return s
+}
+
+func vfC04RowOut(ds []interface{}, typed bool, fields []vfC04Field) interface{} {
 	if typed {
 		r := []string{}
 		for _, d := range ds {
-			r = append(r, vfC04Render(d))
+			r = append(r, vfC04RenderDest(d, fields))
+			if u, ok := d.(*vfC04UdtU); ok {
+				*u = vfC04UdtU{} // a reused record must not carry fields over to the next row
+			}
 		}
 		return r
 	}
@@ -391,7 +610,7 @@ func vfC04RowOut(ds []interface{}, typed bool) interface{} {
 	return r
 }
 
-func vfC04MapOut(m map[string]interface{}) []vfC04M {
+func vfC04MapOut(m map[string]interface{}, fields []vfC04Field) []vfC04M {
 	keys := make([]string, 0, len(m))
 	for k := range m {
 		keys = append(keys, k)
@@ -399,7 +618,7 @@ func vfC04MapOut(m map[string]interface{}) []vfC04M {
 	sort.Strings(keys)
 	r := []vfC04M{}
 	for _, k := range keys {
-		r = append(r, vfC04M{"k": vfC04S2I(k), "v": vfC04Render(m[k])})
+		r = append(r, vfC04M{"k": vfC04S2I(k), "v": vfC04RenderDest(m[k], fields)})
 	}
 	return r
 }
@@ -421,6 +640,7 @@ func vfC04Consume(which string, plan []vfC04Plan, open func() (*Iter, *framer, e
 		return
 	}
 	rows := []interface{}{}
+	fields := vfC04PlanFields(plan)
 	// a driver that mis-parses may report billions of rows; with no columns its own loops
 	// would then spin without consuming anything: refuse (shows up as a mismatch)
 	if iter.NumRows() > vfC04MaxRows {
@@ -434,7 +654,7 @@ func vfC04Consume(which string, plan []vfC04Plan, open func() (*Iter, *framer, e
 		typed := which == "c_ptrscan"
 		ds := vfC04Dests(plan, typed)
 		for n := 0; n < limit && iter.Scan(ds...); n++ {
-			rows = append(rows, vfC04RowOut(ds, typed))
+			rows = append(rows, vfC04RowOut(ds, typed, fields))
 		}
 		cerr = iter.err
 	case "c_rawscanner", "c_ptrscanner":
@@ -446,7 +666,7 @@ func vfC04Consume(which string, plan []vfC04Plan, open func() (*Iter, *framer, e
 				cerr = err
 				break
 			}
-			rows = append(rows, vfC04RowOut(ds, typed))
+			rows = append(rows, vfC04RowOut(ds, typed, fields))
 		}
 		if fr != nil {
 			res["rem"] = len(fr.buf)
@@ -466,7 +686,7 @@ func vfC04Consume(which string, plan []vfC04Plan, open func() (*Iter, *framer, e
 		}
 		cerr = iter.err
 		for _, ds := range kept {
-			rows = append(rows, vfC04RowOut(ds, true))
+			rows = append(rows, vfC04RowOut(ds, true, fields))
 		}
 	case "c_mapscan":
 		// a new map per row (as documented); the maps are only looked at after the last row
@@ -480,13 +700,13 @@ func vfC04Consume(which string, plan []vfC04Plan, open func() (*Iter, *framer, e
 		}
 		cerr = iter.err
 		for _, m := range kept {
-			rows = append(rows, vfC04MapOut(m))
+			rows = append(rows, vfC04MapOut(m, fields))
 		}
 	case "c_slicemap":
 		ms, err := iter.SliceMap()
 		cerr = err
 		for _, m := range ms {
-			rows = append(rows, vfC04MapOut(m))
+			rows = append(rows, vfC04MapOut(m, fields))
 		}
 	}
 	if res["rem"] == -1 && fr != nil {
